@@ -134,7 +134,16 @@ pub fn h_stop(run: &Run, out: &mut Vec<Violation>) {
                 }
             },
             Some(j) => match &run.events[j] {
-                Event::Merge { other, loc: mloc, .. } if *other == val && is_prefix(mloc, loc) => {}
+                // a report (or the conversion of a foreign error) answered Break is handed on at the
+                // same place or above; a *hand-over* answered Break means the container that asked
+                // returns, so the next hand-over is its parent's, strictly above
+                // (unless what it handed over is the error a missing_field_error /
+                // deny_unknown_fields / validate callback built through E::error: the struct
+                // hands that to its own accumulator at its own position)
+                Event::Merge { other, loc: mloc, .. }
+                    if *other == val
+                        && is_prefix(mloc, loc)
+                        && (mloc.len() < loc.len() || !is_child_handover(&run.events, i)) => {}
                 next => {
                     out.push(v(
                         "H-stop",
@@ -150,6 +159,19 @@ pub fn h_stop(run: &Run, out: &mut Vec<Violation>) {
             },
         }
     }
+}
+
+/// event i is a `Merge` whose `other` was not built by a user callback through `E::error`
+fn is_child_handover(events: &[Event], i: usize) -> bool {
+    let Event::Merge { other, .. } = &events[i] else { return false };
+    for j in (0..i).rev() {
+        if events[j].result() == Some(*other) {
+            return !(matches!(&events[j], Event::Report { .. })
+                && j > 0
+                && matches!(&events[j - 1], Event::Call { stage: Stage::Missing | Stage::Unknown | Stage::Validate, .. }));
+        }
+    }
+    true
 }
 
 /// "The container in which the report was made returns at once: nothing further inside it is
